@@ -244,33 +244,48 @@ Proof.
   split; vm_compute; reflexivity.
 Qed.
 
-From PV Require Import Spec.TokenDepth Proofs.ParserProofs Proofs.TreeShape Proofs.WriterCursor Proofs.AstWriterDepth.
+From PV Require Import Spec.TokenDepth Proofs.ParserProofs Proofs.TreeShape Proofs.WriterCursor Proofs.AstWriterDepth Proofs.FmtLineEnd.
 
 (* ---------- the nesting counter is the reference depth ----------
    Spec/TokenDepth.v token_depth ts i: the number of blocks and brackets open at token i of the input, by the rules of
    the reference reader Spec/FmtShape.v (written from the manuals; tok_depth_at_agrees / tok_depth_after_agrees: the
-   same function on tokens).  Two more computable exclusions on the tree (Proofs/AstWriterDepth.v):
-     no_short_else    no one-line `if (c) ... else ...` (the writer indents its else part by one, the reference counts
-                      `else` without `then` / `end` as net zero; a token of the else part never begins a line)
+   same function on tokens).  One computable exclusion on the tree (Proofs/AstWriterDepth.v):
      no_trailing_sep  no table constructor with a trailing field separator `{1,2,}` (the writer writes it after leaving the
-                      table's level: C10_indent_trailing_sep_refuted below). *)
+                      table's level: C10_indent_trailing_sep_refuted below)
+   and one check on the white-space / comment tokens (Proofs/FmtLineEnd.v):
+     trivia_tidy      a token that is not a newline token does not end a line: no CR / LF byte of its code is followed by
+                      blanks only up to the end of the code (picotool's lexer: spaces are [ \t]+, `--` / `//` comments stop
+                      before the line end, block comments end in `]]`) - so that a token begins a line of the output only
+                      after a white-space run that holds a newline token.
+   A one-line `if (c) .. else ..` is no exclusion: the writer's counter is one above the reference depth at its `else` and
+   inside its else part, but everything after the condition of a one-line if lies on the same line (the parser's fence:
+   C08_shortif_fence), so no such token follows a run with a newline token. *)
 
 (* every non-empty white-space run the writer hands to _get_code_for_spaces that ends before the end of the token list
-   ends at a significant token i and is passed _indent = token_depth ts i *)
+   ends at a significant token i, and - if it holds a newline token, i.e. if token i can begin a line - it is passed
+   _indent = token_depth ts i *)
 Theorem C10_indent_link : forall ts root e,
   lua_parse ts = Ok (root, e) -> consumed ts e = true -> writable ts root = true ->
-  no_short_else root = true -> no_trailing_sep root = true ->
+  no_trailing_sep root = true ->
   exists cs, writer_chunks ts (view root) = Ok (cs, zlen ts) /\
     forall s ind at_end run, In (Trivia s ind at_end run) cs -> run <> [] -> s + zlen run < zlen ts ->
-      sigb ts (s + zlen run) = true /\ ind = token_depth ts (s + zlen run).
+      sigb ts (s + zlen run) = true /\ (existsb is_newline run = true -> ind = token_depth ts (s + zlen run)).
 Proof. exact program_depth. Qed.
 Print Assumptions C10_indent_link.
+
+(* a white-space run whose formatted text ends in "line feed, blanks" holds a newline token (for tidy tokens) *)
+Theorem C10_line_start_needs_newline : forall w s ind (run : list token) p q,
+  Forall (fun t => is_newline t = true \/ ends_line (tcode t) = false) run ->
+  fmt_spaces w s ind false run = p ++ NL :: q -> noNL q -> forallb is_sp q = true ->
+  existsb is_newline run = true.
+Proof. exact tidy_run_newline. Qed.
+Print Assumptions C10_line_start_needs_newline.
 
 (* C10's indentation clause for whole programs: a code token (token i of the input) that begins a line of luafmt's output
    is preceded by exactly indentwidth x (number of blocks and brackets open at token i) spaces *)
 Theorem C10_indent : forall ts w root e,
   lua_parse ts = Ok (root, e) -> consumed ts e = true -> writable ts root = true -> codes_tidy ts = true ->
-  no_short_else root = true -> no_trailing_sep root = true ->
+  trivia_tidy ts = true -> no_trailing_sep root = true ->
   exists cs, writer_text (fmt_spaces w) ts (view root) = Ok (chunks_text (fmt_spaces w) cs) /\ codes_of cs = sig_codes ts 0 /\
     forall A i text B p q, cs = A ++ Code i text :: B ->
       chunks_text (fmt_spaces w) A = p ++ NL :: q -> noNL q -> forallb is_sp q = true ->
@@ -278,13 +293,133 @@ Theorem C10_indent : forall ts w root e,
 Proof. exact program_indent. Qed.
 Print Assumptions C10_indent.
 
-(* non-vacuity: the example program above satisfies the two exclusions too; `x` (token 2) is at depth 1, `f` (token 11)
+(* non-vacuity: the example program above satisfies the exclusion and the check too; `x` (token 2) is at depth 1, `f` (token 11)
    at depth 2, `end` (token 18) at depth 0 *)
 Example C10_indent_nonvacuous :
   exists root e, lua_parse C10_example_tokens = Ok (root, e) /\ consumed C10_example_tokens e = true /\
     writable C10_example_tokens root = true /\ codes_tidy C10_example_tokens = true /\
-    no_short_else root = true /\ no_trailing_sep root = true /\
+    trivia_tidy C10_example_tokens = true /\ no_trailing_sep root = true /\
     map (token_depth C10_example_tokens) [2; 11; 18] = [1; 2; 0].
+Proof.
+  eexists _, _. split; [vm_compute; reflexivity|]. repeat (split; [vm_compute; reflexivity|]). vm_compute. reflexivity.
+Qed.
+
+(* non-vacuity with a one-line if that has an else part (no_short_else is false), comments, runs of blank lines, tabs and
+   trailing blanks: the two layouts (the lexer's tokens of)
+       "-- head\nfunction f(a)\nif (a) x=1 else y=2 -- c\n\n\n\nt={1,\n2}\nend\n"
+       "  -- head  \nfunction f(a)  \n\tif (a) x=1 else y=2 -- c \n  \n\n \n      t={1,\n  2}\t\n  end  \n"
+   satisfy all hypotheses; in the second `if` (token 12) begins a line at depth 1, `t` (token 36) at depth 1, `2` (token 43)
+   at depth 2, `end` (token 48) at depth 0; `else` (token 22) does not begin a line: the writer's counter there is 1, the
+   reference depth 0. *)
+Definition C10_layout1 : list token :=
+  [mkTok CComment 0 [45; 45; 32; 104; 101; 97; 100] [45; 45; 32; 104; 101; 97; 100];
+   mkTok CNewline 0 [10] [10];
+   mkTok CKeyword 0 [102; 117; 110; 99; 116; 105; 111; 110] [102; 117; 110; 99; 116; 105; 111; 110];
+   mkTok CSpace 0 [32] [32];
+   mkTok CName 0 [102] [102];
+   mkTok CSymbol 0 [40] [40];
+   mkTok CName 0 [97] [97];
+   mkTok CSymbol 0 [41] [41];
+   mkTok CNewline 0 [10] [10];
+   mkTok CKeyword 0 [105; 102] [105; 102];
+   mkTok CSpace 0 [32] [32];
+   mkTok CSymbol 0 [40] [40];
+   mkTok CName 0 [97] [97];
+   mkTok CSymbol 0 [41] [41];
+   mkTok CSpace 0 [32] [32];
+   mkTok CName 0 [120] [120];
+   mkTok CSymbol 0 [61] [61];
+   mkTok CNumber 0 [49] [49];
+   mkTok CSpace 0 [32] [32];
+   mkTok CKeyword 0 [101; 108; 115; 101] [101; 108; 115; 101];
+   mkTok CSpace 0 [32] [32];
+   mkTok CName 0 [121] [121];
+   mkTok CSymbol 0 [61] [61];
+   mkTok CNumber 0 [50] [50];
+   mkTok CSpace 0 [32] [32];
+   mkTok CComment 0 [45; 45; 32; 99] [45; 45; 32; 99];
+   mkTok CNewline 0 [10] [10];
+   mkTok CNewline 0 [10] [10];
+   mkTok CNewline 0 [10] [10];
+   mkTok CNewline 0 [10] [10];
+   mkTok CName 0 [116] [116];
+   mkTok CSymbol 0 [61] [61];
+   mkTok CSymbol 0 [123] [123];
+   mkTok CNumber 0 [49] [49];
+   mkTok CSymbol 0 [44] [44];
+   mkTok CNewline 0 [10] [10];
+   mkTok CNumber 0 [50] [50];
+   mkTok CSymbol 0 [125] [125];
+   mkTok CNewline 0 [10] [10];
+   mkTok CKeyword 0 [101; 110; 100] [101; 110; 100];
+   mkTok CNewline 0 [10] [10]].
+
+Definition C10_layout2 : list token :=
+  [mkTok CSpace 0 [32; 32] [32; 32];
+   mkTok CComment 0 [45; 45; 32; 104; 101; 97; 100; 32; 32] [45; 45; 32; 104; 101; 97; 100; 32; 32];
+   mkTok CNewline 0 [10] [10];
+   mkTok CKeyword 0 [102; 117; 110; 99; 116; 105; 111; 110] [102; 117; 110; 99; 116; 105; 111; 110];
+   mkTok CSpace 0 [32] [32];
+   mkTok CName 0 [102] [102];
+   mkTok CSymbol 0 [40] [40];
+   mkTok CName 0 [97] [97];
+   mkTok CSymbol 0 [41] [41];
+   mkTok CSpace 0 [32; 32] [32; 32];
+   mkTok CNewline 0 [10] [10];
+   mkTok CSpace 0 [9] [9];
+   mkTok CKeyword 0 [105; 102] [105; 102];
+   mkTok CSpace 0 [32] [32];
+   mkTok CSymbol 0 [40] [40];
+   mkTok CName 0 [97] [97];
+   mkTok CSymbol 0 [41] [41];
+   mkTok CSpace 0 [32] [32];
+   mkTok CName 0 [120] [120];
+   mkTok CSymbol 0 [61] [61];
+   mkTok CNumber 0 [49] [49];
+   mkTok CSpace 0 [32] [32];
+   mkTok CKeyword 0 [101; 108; 115; 101] [101; 108; 115; 101];
+   mkTok CSpace 0 [32] [32];
+   mkTok CName 0 [121] [121];
+   mkTok CSymbol 0 [61] [61];
+   mkTok CNumber 0 [50] [50];
+   mkTok CSpace 0 [32] [32];
+   mkTok CComment 0 [45; 45; 32; 99; 32] [45; 45; 32; 99; 32];
+   mkTok CNewline 0 [10] [10];
+   mkTok CSpace 0 [32; 32] [32; 32];
+   mkTok CNewline 0 [10] [10];
+   mkTok CNewline 0 [10] [10];
+   mkTok CSpace 0 [32] [32];
+   mkTok CNewline 0 [10] [10];
+   mkTok CSpace 0 [32; 32; 32; 32; 32; 32] [32; 32; 32; 32; 32; 32];
+   mkTok CName 0 [116] [116];
+   mkTok CSymbol 0 [61] [61];
+   mkTok CSymbol 0 [123] [123];
+   mkTok CNumber 0 [49] [49];
+   mkTok CSymbol 0 [44] [44];
+   mkTok CNewline 0 [10] [10];
+   mkTok CSpace 0 [32; 32] [32; 32];
+   mkTok CNumber 0 [50] [50];
+   mkTok CSymbol 0 [125] [125];
+   mkTok CSpace 0 [9] [9];
+   mkTok CNewline 0 [10] [10];
+   mkTok CSpace 0 [32; 32] [32; 32];
+   mkTok CKeyword 0 [101; 110; 100] [101; 110; 100];
+   mkTok CSpace 0 [32; 32] [32; 32];
+   mkTok CNewline 0 [10] [10]].
+
+Example C10_indent_short_else_nonvacuous :
+  exists root e, lua_parse C10_layout2 = Ok (root, e) /\ consumed C10_layout2 e = true /\
+    writable C10_layout2 root = true /\ codes_tidy C10_layout2 = true /\
+    trivia_tidy C10_layout2 = true /\ no_trailing_sep root = true /\ no_short_else root = false /\
+    map (token_depth C10_layout2) [12; 36; 43; 48; 22] = [1; 1; 2; 0; 0] /\
+    writer_text (fmt_spaces 2) C10_layout2 (view root) = Ok ("-- head
+function f(a)
+  if (a) x=1 else y=2  -- c
+
+  t={1,
+    2}
+end
+"%bs : list Z).
 Proof.
   eexists _, _. split; [vm_compute; reflexivity|]. repeat (split; [vm_compute; reflexivity|]). vm_compute. reflexivity.
 Qed.
@@ -304,10 +439,35 @@ Definition C10_trailing_sep_tokens : list token :=
 Example C10_indent_trailing_sep_refuted :
   exists root e, lua_parse C10_trailing_sep_tokens = Ok (root, e) /\ consumed C10_trailing_sep_tokens e = true /\
     writable C10_trailing_sep_tokens root = true /\ codes_tidy C10_trailing_sep_tokens = true /\
-    no_short_else root = true /\ no_trailing_sep root = false /\
+    trivia_tidy C10_trailing_sep_tokens = true /\ no_trailing_sep root = false /\
     token_depth C10_trailing_sep_tokens 5 = 1 /\
     writer_text (fmt_spaces 2) C10_trailing_sep_tokens (view root) = Ok ("x={1
 ,}
+"%bs : list Z).
+Proof.
+  eexists _, _. split; [vm_compute; reflexivity|]. repeat (split; [vm_compute; reflexivity|]). vm_compute. reflexivity.
+Qed.
+
+(* the check trivia_tidy is needed (for token lists the lexer never produces): with a comment token whose code ends in a line
+   feed inside the else part of a one-line if - `do / if (a) x=1 else --c<LF>y=2 / end`, the newline token after `2` is the fence -
+   `y` (token 15, reference depth 1) begins a line of the output at 2 x 2 spaces: the writer's counter in the else part *)
+Definition C10_untidy_comment_tokens : list token :=
+  [mkTok CKeyword 0 "do"%bs "do"%bs; mkTok CNewline 0 [10] [10];
+   mkTok CKeyword 0 "if"%bs "if"%bs; mkTok CSpace 0 [32] [32]; mkTok CSymbol 0 [40] [40]; mkTok CName 0 [97] [97]; mkTok CSymbol 0 [41] [41];
+   mkTok CSpace 0 [32] [32]; mkTok CName 0 [120] [120]; mkTok CSymbol 0 [61] [61]; mkTok CNumber 0 [49] [49]; mkTok CSpace 0 [32] [32];
+   mkTok CKeyword 0 "else"%bs "else"%bs; mkTok CSpace 0 [32] [32]; mkTok CComment 0 [45; 45; 99; 10] [45; 45; 99; 10];
+   mkTok CName 0 [121] [121]; mkTok CSymbol 0 [61] [61]; mkTok CNumber 0 [50] [50]; mkTok CNewline 0 [10] [10];
+   mkTok CKeyword 0 "end"%bs "end"%bs; mkTok CNewline 0 [10] [10]].
+
+Example C10_indent_untidy_comment_refuted :
+  exists root e, lua_parse C10_untidy_comment_tokens = Ok (root, e) /\ consumed C10_untidy_comment_tokens e = true /\
+    writable C10_untidy_comment_tokens root = true /\ codes_tidy C10_untidy_comment_tokens = true /\
+    trivia_tidy C10_untidy_comment_tokens = false /\ no_trailing_sep root = true /\
+    token_depth C10_untidy_comment_tokens 15 = 1 /\
+    writer_text (fmt_spaces 2) C10_untidy_comment_tokens (view root) = Ok ("do
+  if (a) x=1 else  --c
+    y=2
+end
 "%bs : list Z).
 Proof.
   eexists _, _. split; [vm_compute; reflexivity|]. repeat (split; [vm_compute; reflexivity|]). vm_compute. reflexivity.
@@ -323,3 +483,164 @@ Theorem C10_first_line : forall ts w root e,
       chunks_text (fmt_spaces w) A = [].
 Proof. exact program_first_line. Qed.
 Print Assumptions C10_first_line.
+
+(* the end of the output: the formatted program is empty, or a single line feed, or ends in a byte that is neither blank nor line
+   feed followed by at most one line feed - no blank lines and no blanks at the end (hypotheses as C10_shape; the run that ends the
+   file is formatted with at_end: C10_run_end_of_file; what precedes it ends in a code token) *)
+Theorem C10_no_blank_lines_at_end : forall ts w root e,
+  lua_parse ts = Ok (root, e) -> consumed ts e = true -> writable ts root = true -> codes_tidy ts = true ->
+  exists out, writer_text (fmt_spaces w) ts (view root) = Ok out /\
+    (out = [] \/ out = [NL] \/ exists a c, is_sp_nl c = false /\ (out = a ++ [c] \/ out = a ++ [c; NL])).
+Proof. exact program_end. Qed.
+Print Assumptions C10_no_blank_lines_at_end.
+
+(* non-vacuity: `x=1` followed by two blank lines (one with blanks) and blanks without a final newline is written `x=1` + line feed *)
+Example C10_end_nonvacuous :
+  let ts := [mkTok CName 0 [120] [120]; mkTok CSymbol 0 [61] [61]; mkTok CNumber 0 [49] [49]; mkTok CNewline 0 [10] [10];
+             mkTok CNewline 0 [10] [10]; mkTok CSpace 0 [32; 32] [32; 32]; mkTok CNewline 0 [10] [10]; mkTok CSpace 0 [32; 9] [32; 9]] in
+  exists root e, lua_parse ts = Ok (root, e) /\ consumed ts e = true /\ writable ts root = true /\ codes_tidy ts = true /\
+    writer_text (fmt_spaces 2) ts (view root) = Ok [120; 61; 49; NL].
+Proof.
+  cbv zeta. eexists _, _. split; [vm_compute; reflexivity|]. repeat (split; [vm_compute; reflexivity|]). vm_compute. reflexivity.
+Qed.
+
+From PV Require Import Spec.FmtShape Spec.ReindentSpec Proofs.AstWriterReindent.
+
+(* ---------- luafmt's output as a function of the token list; re-indentation invariance of whole programs ----------
+   Spec/ReindentSpec.v (token level, written from the property text):
+     segs ts               the token list cut at its significant tokens (the run before the first one, then each with the run after it)
+     ref_fmt G ts          every significant token with its own code; the run in front of a token rewritten by G knowing only whether
+                           it begins the file, whether it ends the file, and the number of blocks and brackets open at the token
+                           (depth rules of Spec/TokenDepth.v folded along the significant tokens; 0 for the run that ends the file)
+     layout_equiv R        the same significant tokens in the same order, the runs at corresponding places related by R at_start at_end
+   Instances (Proofs/AstWriterReindent.v): gap_fmt w = the re.sub pipeline fmt_run; run_norm_rel = the relation of
+   C10_run_depends_on_norm / C10_run_depends_on_norm_end on the joined codes of the runs (equal after canon_ws and the removal of the
+   blanks at the edges of lines; comments are part of the runs); reindent_equiv = layout_equiv run_norm_rel.
+   One more computable check on the token list: gaps_tidy - a run without a newline token holds no CR / LF byte at all (no
+   multi-line block comment in the middle of a line): the text of such a run does not depend on the nesting counter, which inside a
+   one-line if is not the reference depth. *)
+
+(* inside the writer's domain luafmt writes exactly ref_fmt (gap_fmt w) ts *)
+Theorem C10_output_form : forall ts w root e,
+  lua_parse ts = Ok (root, e) -> consumed ts e = true -> writable ts root = true ->
+  no_trailing_sep root = true -> gaps_tidy ts = true ->
+  writer_text (fmt_spaces w) ts (view root) = Ok (ref_fmt (gap_fmt w) ts).
+Proof. exact program_ref_fmt. Qed.
+Print Assumptions C10_output_form.
+
+(* the reference formatter does not see line-edge white space *)
+Theorem C10_ref_fmt_reindent : forall w ts1 ts2, reindent_equiv ts1 ts2 -> ref_fmt (gap_fmt w) ts1 = ref_fmt (gap_fmt w) ts2.
+Proof. exact ref_fmt_reindent. Qed.
+Print Assumptions C10_ref_fmt_reindent.
+
+(* C10's re-indentation clause for whole programs: two token lists inside the domain that are the same program with the same line
+   breaks, differing only in white space at the edges of lines, are formatted to the same text *)
+Theorem C10_reindent_invariant : forall w ts1 ts2 root1 e1 root2 e2,
+  lua_parse ts1 = Ok (root1, e1) -> consumed ts1 e1 = true -> writable ts1 root1 = true ->
+  no_trailing_sep root1 = true -> gaps_tidy ts1 = true ->
+  lua_parse ts2 = Ok (root2, e2) -> consumed ts2 e2 = true -> writable ts2 root2 = true ->
+  no_trailing_sep root2 = true -> gaps_tidy ts2 = true ->
+  reindent_equiv ts1 ts2 ->
+  writer_text (fmt_spaces w) ts1 (view root1) = writer_text (fmt_spaces w) ts2 (view root2).
+Proof. exact program_reindent. Qed.
+Print Assumptions C10_reindent_invariant.
+
+(* non-vacuity: the two layouts of C10_indent_short_else_nonvacuous (nested program with a one-line if with else, a comment line, a
+   trailing comment, a run of blank lines some with blanks, tabs, trailing blanks) are different token lists, related by
+   reindent_equiv, both inside the domain, and formatted to the same text; their source texts are related by the byte-level reference
+   relation same_modulo_line_edges of Spec/FmtShape.v (which the monitor evaluates on real luafmt runs) *)
+Example C10_reindent_nonvacuous :
+  C10_layout1 <> C10_layout2 /\ reindent_equiv C10_layout1 C10_layout2 /\
+  same_modulo_line_edges (flat_map tcode C10_layout1) (flat_map tcode C10_layout2) = Some true /\
+  gaps_tidy C10_layout1 = true /\ gaps_tidy C10_layout2 = true /\
+  exists root1 e1 root2 e2,
+    lua_parse C10_layout1 = Ok (root1, e1) /\ consumed C10_layout1 e1 = true /\ writable C10_layout1 root1 = true /\
+    no_trailing_sep root1 = true /\
+    lua_parse C10_layout2 = Ok (root2, e2) /\ consumed C10_layout2 e2 = true /\ writable C10_layout2 root2 = true /\
+    no_trailing_sep root2 = true /\
+    writer_text (fmt_spaces 2) C10_layout1 (view root1) = writer_text (fmt_spaces 2) C10_layout2 (view root2) /\
+    writer_text (fmt_spaces 2) C10_layout1 (view root1) = Ok (ref_fmt (gap_fmt 2) C10_layout1).
+Proof.
+  split; [discriminate|]. split; [vm_compute; repeat split; reflexivity|]. split; [vm_compute; reflexivity|].
+  split; [vm_compute; reflexivity|]. split; [vm_compute; reflexivity|].
+  eexists _, _, _, _. split; [vm_compute; reflexivity|]. repeat (split; [vm_compute; reflexivity|]). vm_compute. reflexivity.
+Qed.
+
+(* ---------- formatting already formatted code changes nothing (token level) ----------
+   formatted_as G ts ts' (Spec/ReindentSpec.v): ts' has the significant tokens of ts, and every run of ts' is spelled (joined codes)
+   as G rewrites the run of ts at the same place - ts' is "the formatted ts", re-read.  Then the text of ts' is ref_fmt G ts, and
+   ref_fmt G leaves it alone (C10_run_idempotent run by run); with C10_output_form: a token list inside the domain that is spelled as
+   the reference formatting of some token list is written back byte for byte.  Missing for the property's clause on texts: that
+   lexing luafmt's output gives such a token list (the lexer on written text; worker lexer). *)
+Theorem C10_formatted_fixed : forall w ts ts', formatted_as (gap_fmt w) ts ts' ->
+  flat_map tcode ts' = ref_fmt (gap_fmt w) ts /\ ref_fmt (gap_fmt w) ts' = ref_fmt (gap_fmt w) ts.
+Proof. exact ref_fmt_idem. Qed.
+Print Assumptions C10_formatted_fixed.
+
+Theorem C10_idempotent_tokens : forall w ts ts' root' e',
+  lua_parse ts' = Ok (root', e') -> consumed ts' e' = true -> writable ts' root' = true ->
+  no_trailing_sep root' = true -> gaps_tidy ts' = true ->
+  formatted_as (gap_fmt w) ts ts' ->
+  writer_text (fmt_spaces w) ts' (view root') = Ok (flat_map tcode ts').
+Proof. exact program_idempotent. Qed.
+Print Assumptions C10_idempotent_tokens.
+
+(* non-vacuity: the lexer's tokens of the text luafmt (width 2) writes for C10_layout1 / C10_layout2 are formatted_as both
+   layouts, inside the domain, and written back unchanged *)
+Definition C10_layout_formatted : list token :=
+  [mkTok CComment 0 [45; 45; 32; 104; 101; 97; 100] [45; 45; 32; 104; 101; 97; 100];
+   mkTok CNewline 0 [10] [10];
+   mkTok CKeyword 0 [102; 117; 110; 99; 116; 105; 111; 110] [102; 117; 110; 99; 116; 105; 111; 110];
+   mkTok CSpace 0 [32] [32];
+   mkTok CName 0 [102] [102];
+   mkTok CSymbol 0 [40] [40];
+   mkTok CName 0 [97] [97];
+   mkTok CSymbol 0 [41] [41];
+   mkTok CNewline 0 [10] [10];
+   mkTok CSpace 0 [32; 32] [32; 32];
+   mkTok CKeyword 0 [105; 102] [105; 102];
+   mkTok CSpace 0 [32] [32];
+   mkTok CSymbol 0 [40] [40];
+   mkTok CName 0 [97] [97];
+   mkTok CSymbol 0 [41] [41];
+   mkTok CSpace 0 [32] [32];
+   mkTok CName 0 [120] [120];
+   mkTok CSymbol 0 [61] [61];
+   mkTok CNumber 0 [49] [49];
+   mkTok CSpace 0 [32] [32];
+   mkTok CKeyword 0 [101; 108; 115; 101] [101; 108; 115; 101];
+   mkTok CSpace 0 [32] [32];
+   mkTok CName 0 [121] [121];
+   mkTok CSymbol 0 [61] [61];
+   mkTok CNumber 0 [50] [50];
+   mkTok CSpace 0 [32; 32] [32; 32];
+   mkTok CComment 0 [45; 45; 32; 99] [45; 45; 32; 99];
+   mkTok CNewline 0 [10] [10];
+   mkTok CNewline 0 [10] [10];
+   mkTok CSpace 0 [32; 32] [32; 32];
+   mkTok CName 0 [116] [116];
+   mkTok CSymbol 0 [61] [61];
+   mkTok CSymbol 0 [123] [123];
+   mkTok CNumber 0 [49] [49];
+   mkTok CSymbol 0 [44] [44];
+   mkTok CNewline 0 [10] [10];
+   mkTok CSpace 0 [32; 32; 32; 32] [32; 32; 32; 32];
+   mkTok CNumber 0 [50] [50];
+   mkTok CSymbol 0 [125] [125];
+   mkTok CNewline 0 [10] [10];
+   mkTok CKeyword 0 [101; 110; 100] [101; 110; 100];
+   mkTok CNewline 0 [10] [10]].
+
+Example C10_idempotent_nonvacuous :
+  formatted_as (gap_fmt 2) C10_layout1 C10_layout_formatted /\ formatted_as (gap_fmt 2) C10_layout2 C10_layout_formatted /\
+  gaps_tidy C10_layout_formatted = true /\
+  exists root e, lua_parse C10_layout_formatted = Ok (root, e) /\ consumed C10_layout_formatted e = true /\
+    writable C10_layout_formatted root = true /\ no_trailing_sep root = true /\
+    writer_text (fmt_spaces 2) C10_layout_formatted (view root) = Ok (flat_map tcode C10_layout_formatted) /\
+    (exists root2 e2, lua_parse C10_layout2 = Ok (root2, e2) /\
+       writer_text (fmt_spaces 2) C10_layout2 (view root2) = Ok (flat_map tcode C10_layout_formatted)).
+Proof.
+  split; [vm_compute; repeat split; reflexivity|]. split; [vm_compute; repeat split; reflexivity|]. split; [vm_compute; reflexivity|].
+  eexists _, _. split; [vm_compute; reflexivity|]. repeat (split; [vm_compute; reflexivity|]).
+  eexists _, _. split; vm_compute; reflexivity.
+Qed.
